@@ -1100,6 +1100,9 @@ def fromFunction(func, interface=None, imlevel=0, name=None):
     method = Method(name, func.__doc__)
     defaults = getattr(func, '__defaults__', None) or ()
     code = func.__code__
+    # A method that takes its instance through ``*args`` (``def m(*args,
+    # **kw)``) has no leading parameter to leave out.
+    imlevel = min(imlevel, code.co_argcount)
     # Number of positional arguments
     na = code.co_argcount - imlevel
     names = code.co_varnames[imlevel:]
